@@ -2,7 +2,9 @@
 """Regenerate MANIFEST.json from tools/manifest_table.json (one entry per property)."""
 import json, pathlib
 root = pathlib.Path(__file__).resolve().parent.parent
-table = json.loads((root / "tools" / "manifest_table.json").read_text())
+table = {}
+for f in sorted((root / "tools" / "manifest_entries").glob("C*.json")):
+    table[f.stem] = json.loads(f.read_text())
 props = [json.loads(l)["id"] for l in (root / "properties.jsonl").read_text().splitlines() if l.strip()]
 checks, na = [], []
 for pid in props:
